@@ -704,6 +704,9 @@ def selftest():
                 assert a != b, (kind, f, var, bd)
 
 
+SANITIZE = True        # thorough tier: reduced pass against an ASan build of the extensions
+SANITIZE_SCALE = 0.03
+
 SUBCHECKS = [
     Subcheck("history", histories, check_history, classify, quick=2700, thorough=40000),
     Subcheck("recfile_history", recfile_histories, check_recfile_history, classify, quick=1200, thorough=15000),
